@@ -16,6 +16,7 @@ def run(ctx, rep):
         rep.floor("commit_fns", len(commits), exp, cfg)
         for p in commits:
             check_commit(cfg, w, rep, w.prog.fns[p])
+        check_who_may_remove_content(cfg, w, rep, "g3")
         # the size guard compares the declared size with the writer's byte counter: that counter is `+= amount reported by
         # the inner writer` in every data-accepting method of the keyed writers (C02 c, re-checked here)
         from ..framework import Report
